@@ -363,10 +363,15 @@ structure Feat (α β : Type) where
   ann : Option (List (Ann α))
 
 /-- the derived fields of `build_features` for one scored candidate.
-    `pm` = `(precursor.mz - PROTON) * charge`, `totalMatched`/`nScored` = `hits.matched_peaks` /
-    `hits.scored_candidates`, `tic` = `query.total_ion_current`, `n` = `peptide.sequence.len()` -/
-def feature (E : Env α β) (pre : Pre) (s : Scored α β) (n z : Nat) (pm mono tic : α)
+    `precMz` = `precursor.mz`; the experimental mass is recomputed per PSM from the charge the hit was SEARCHED
+    under (`score.precursor_charge` = `pre.charge`): `precursor_mass = (precursor.mz - PROTON) * charge as f32`
+    — not from the annotated charge (they differ under `override_precursor_charge`) and not from another PSM;
+    `totalMatched`/`nScored` = `hits.matched_peaks` / `hits.scored_candidates`, `tic` = `query.total_ion_current`,
+    `n` = `peptide.sequence.len()`, `mono` = `peptide.monoisotopic` -/
+def feature (E : Env α β) (pre : Pre) (s : Scored α β) (n : Nat) (precMz mono tic : α)
     (totalMatched nScored : Nat) : Feat α β :=
+  let z := pre.charge
+  let pm := E.mul (E.sub precMz E.proton) (E.ofNat pre.charge)
   let lambda := E.divD (E.ofNatD totalMatched) (E.ofNatD nScored)
   let k := s.matchedB + s.matchedY
   let p := E.divD (E.mulD (powi E lambda k) (E.exp (E.negD lambda))) (E.exp (lnfact E k))
@@ -418,6 +423,27 @@ def isBlock (S : List Nat) (s len : Nat) : Bool := (List.range len).all fun k =>
 /-- length of the longest block of consecutive indices all of which occur in `S` -/
 def specLongest (S : List Nat) : Nat :=
   ((List.range (S.length + 1)).filter fun len => S.any fun s => isBlock S s len).foldl max 0
+
+/-- walk on while the next index repeats the current one or is its successor; `len` = number of distinct
+    indices seen so far in this ladder, `cur` = the current index -/
+def ladderGo : Nat → Nat → List Nat → Nat
+  | len, _, [] => len
+  | len, cur, b :: t =>
+    if b = cur then ladderGo len b t
+    else if b = cur + 1 then ladderGo (len + 1) b t
+    else len
+
+/-- length (number of distinct indices) of the ladder that starts at the head of the sequence -/
+def ladderFrom : List Nat → Nat
+  | [] => 0
+  | a :: t => ladderGo 1 a t
+
+/-- for an ARBITRARY index sequence (e.g. the concatenation of the ascending sequences of several kinds that
+    share one counter): the longest ladder `s, s+1, …` that occurs as a CONTIGUOUS stretch of the sequence
+    (adjacent repeats allowed), searched from every start position -/
+def specLongestSeq : List Nat → Nat
+  | [] => 0
+  | a :: t => max (ladderFrom (a :: t)) (specLongestSeq t)
 
 end spec
 
